@@ -95,6 +95,27 @@ def _r1_output(repo, report, rule):
                     looked = any(c[2].endswith("detect_format_from_name") or "detect_format_from_name" in c[0] for c in r.calls) or any("detect_format_from_name" in k for k in r.valuation)
                     if not looked:
                         undecided.append(r.describe()["valuation"])
+            # two output paths with the same extension must give ONE format: the detected formats are collected as a set
+            coll = [n for n in ast.walk(fn) if isinstance(n, (ast.Assign, ast.AnnAssign)) and n.value is not None and any(isinstance(x, ast.Call) and chain(x.func) == "detect_format_from_name" for x in ast.walk(n.value))
+                    and isinstance(n.value, (ast.SetComp, ast.ListComp, ast.GeneratorExp, ast.Call, ast.List, ast.Set, ast.Tuple))]
+            facts_c = {"collection": src(coll[0].value)[:120] if coll else None}
+            ok_c = None  # another shape of the decision is not judged (analysis error), only a recognised collection that is not a set
+            if len(coll) == 1:
+                v = coll[0].value
+                is_set = isinstance(v, (ast.SetComp, ast.Set)) or (isinstance(v, ast.Call) and chain(v.func) in ("set", "frozenset"))
+                tname = chain(coll[0].targets[0] if isinstance(coll[0], ast.Assign) else coll[0].target)
+                comp = v if isinstance(v, (ast.SetComp, ast.ListComp, ast.GeneratorExp)) else next((x for x in ast.walk(v) if isinstance(x, (ast.SetComp, ast.ListComp, ast.GeneratorExp))), None)
+                over_all = comp is not None and len(comp.generators) == 1 and src(comp.generators[0].iter) == (fn.args.vararg.arg if fn.args.vararg else "paths") \
+                    and isinstance(comp.elt, ast.Call) and chain(comp.elt.func) == "detect_format_from_name" and [src(a_) for a_ in comp.elt.args] == [src(comp.generators[0].target)]
+                applied = [n for n in ast.walk(fn) if isinstance(n, ast.Assign) and src(n.targets[0]) in ("kwargs['fileformat']", 'kwargs["fileformat"]') and tname and tname in src(n.value)]
+                one = [n for n in ast.walk(fn) if isinstance(n, ast.If) and src(n.test).replace(" ", "") in (f"len({tname})==1", f"1==len({tname})") and any(a_ in list(ast.walk(n)) for a_ in applied)]
+                facts_c.update({"is_set": is_set, "over_all_paths": over_all, "applied_when": src(one[0].test) if one else None, "applied_as": src(applied[0].value) if applied else None})
+                ok_c = (is_set and over_all and len(one) == 1 and len(applied) == 1) if (over_all and applied) else None
+                if over_all and applied and not is_set:
+                    ok_c = False
+            report.ob(rule, "OutputFiles.open_record_writer: one format for all paths of a writer", ok_c, facts=facts_c,
+                      expected="formats = {detect_format_from_name(p) for p in paths if p is not None}; applied iff exactly one distinct format", loc=repo.loc(fn),
+                      why="" if ok_c is not False else "two output files with the same extension must give one format; with a list (or per-path decision) '-o a.fasta -p b.fasta' is left without an explicit format and the proxied writer falls back to FASTQ")
             report.ob(rule, "OutputFiles.open_record_writer: format derived from the path string", not undecided, facts={"paths_without_decision": undecided[:3]},
                       expected="the file name(s) are inspected (before any file object exists) on every path that does not force FASTA", loc=repo.loc(fn), fact_key="format-left-to-file-object" if undecided else None,
                       why="" if not undecided else "the FASTA/FASTQ decision is left to dnaio, which looks at the file object's name: compressed streams and in-memory buffers of worker processes have none, so the format depends on compression and on --cores")
